@@ -593,7 +593,42 @@ func (t UnicodeVariations) GetGlyphVariant(r, selector rune) (GID, uint8) {
 }
 
 // Handle legacy font with remap
-// TODO: the Iter() and RuneRanges() method does not include the additional mapping
+
+// remapIter yields the runes of the underlying cmap, followed by the
+// additional runes provided by the remapping.
+type remapIter struct {
+	CmapIter
+	extraRunes  []rune
+	extraGlyphs []GID
+	pos         int
+}
+
+// newRemapIter looks for the runes up to [maxRune] (included) which are not
+// mapped by [cm] but are by [lookup].
+func newRemapIter(cm Cmap, lookup func(rune) (GID, bool), maxRune rune) *remapIter {
+	it := remapIter{CmapIter: cm.Iter()}
+	for r := rune(0); r <= maxRune; r++ {
+		if _, ok := cm.Lookup(r); ok {
+			continue // already yielded by the underlying iterator
+		}
+		if g, ok := lookup(r); ok {
+			it.extraRunes = append(it.extraRunes, r)
+			it.extraGlyphs = append(it.extraGlyphs, g)
+		}
+	}
+	return &it
+}
+
+func (it *remapIter) Next() bool { return it.CmapIter.Next() || it.pos < len(it.extraRunes) }
+
+func (it *remapIter) Char() (rune, GID) {
+	if it.CmapIter.Next() {
+		return it.CmapIter.Char()
+	}
+	r, g := it.extraRunes[it.pos], it.extraGlyphs[it.pos]
+	it.pos++
+	return r, g
+}
 
 type remaperSymbol struct {
 	Cmap
@@ -618,9 +653,13 @@ func (rs remaperSymbol) Lookup(r rune) (GID, bool) {
 	return 0, false
 }
 
+func (rs remaperSymbol) Iter() CmapIter { return newRemapIter(rs.Cmap, rs.Lookup, 0xFF) }
+
 type remaperPUASimp struct {
 	Cmap
 }
+
+func (rs remaperPUASimp) Iter() CmapIter { return newRemapIter(rs.Cmap, rs.Lookup, 0xFFFF) }
 
 func (rs remaperPUASimp) Lookup(r rune) (GID, bool) {
 	// try without map first
@@ -638,6 +677,8 @@ func (rs remaperPUASimp) Lookup(r rune) (GID, bool) {
 type remaperPUATrad struct {
 	Cmap
 }
+
+func (rs remaperPUATrad) Iter() CmapIter { return newRemapIter(rs.Cmap, rs.Lookup, 0xFFFF) }
 
 func (rs remaperPUATrad) Lookup(r rune) (GID, bool) {
 	// try without map first
